@@ -26,6 +26,7 @@ for item in "$@"; do
   if [ "${SEED_ROOT:-/tmp/seed}" = /tmp/seed2 ]; then export OUT_VARIANT=$(echo $2 | tr AB CD);
   elif [ "${SEED_ROOT:-/tmp/seed}" = /tmp/seed3 ]; then export OUT_VARIANT=$(echo $2 | tr AB EF);
   elif [ "${SEED_ROOT:-/tmp/seed}" = /tmp/seed4 ]; then export OUT_VARIANT=$(echo $2 | tr AB EF);
+  elif [ "${SEED_ROOT:-/tmp/seed}" = /tmp/seed5 ]; then export OUT_VARIANT=$(echo $2 | tr AB EF);
   else unset OUT_VARIANT; fi
   echo "=== $1 $2 $(date +%H:%M:%S)"
   if [ $ALL = 1 ]; then /verif/tools/seed_eval.sh $1 $2 2>&1 | tail -3
